@@ -182,7 +182,9 @@ func runC11(c *run.Ctx) {
 				if !d.Equal(v.model) {
 					fail("denote", "wrong-denotation", fmt.Sprintf("value %d = %s", i, v.model), d.String())
 				}
-				if v.model.IsFull() && !namedInvolved(v.real) {
+				if v.model.IsFull() && !hasExcludedNames(v.real) {
+					// a value holding every port of every protocol denotes the full set whether or not it also lists allowed
+					// named ports (a named port is one of those numbers); only an EXCLUDED name makes it less than full
 					r.Ev("full_set_seen", 1)
 					if !v.real.IsAllConnections() || v.real.String() != "All Connections" {
 						fail("canon", "full-not-flagged", "IsAllConnections and 'All Connections'", fmt.Sprintf("%v / %s", v.real.IsAllConnections(), v.real.String()))
@@ -380,6 +382,15 @@ func runC11(c *run.Ctx) {
 func hasNames(c *connlist.VerifConnectionSet) bool {
 	for _, ps := range c.AllowedProtocols {
 		if len(ps.NamedPorts) > 0 {
+			return true
+		}
+	}
+	return false
+}
+
+func hasExcludedNames(c *connlist.VerifConnectionSet) bool {
+	for _, ps := range c.AllowedProtocols {
+		if len(ps.ExcludedNamedPorts) > 0 {
 			return true
 		}
 	}
